@@ -194,7 +194,49 @@ Result exec(const Plan& pl) {
     bool detected = false;
     bool multi = false;
     int calls = 0;
-    while (pos < N && !detected) {
+    const bool reject_fault = (uint32_t(op.iarg(8)) % 5u) == 0u;   // a call with an unsupported length (rejected by exception) somewhere in the history
+    const int64_t reject_at = reject_fault ? int64_t(r.below(uint64_t(total))) * block : -1;
+    int spurious_checked = 0;
+    while (pos < N) {
+        if (pos == reject_at) {
+            bool threw = false;
+            try {
+                (void)det.process(arr_cmplx(block + 1 + int(r.below(uint64_t(block - 1)))));
+            } catch (const std::exception&) {
+                threw = true;
+            }
+            res.inc("fault.rejected_call_in_history", threw);
+            if (!threw) {
+                res.fail("C18:bad-length-accepted", fmt("nh=%d frame_len=%d: a call whose length is not a multiple of frame_len() was accepted", nh, block));
+                return res;
+            }
+        }
+        if (detected) {
+            // the stream holds ONE preamble: nothing more may be reported in the frames after it (the reference score there is below 0.9 x threshold)
+            const int nf2 = int(std::min<int64_t>(r.range(1, 4), (N - pos) / block));
+            const int len2 = nf2 * block;
+            arr_cmplx sig2(len2);
+            for (int i = 0; i < len2; ++i) {
+                sig2[i] = cmplx_t{double(x[size_t(pos + i)].real()), double(x[size_t(pos + i)].imag())};
+            }
+            std::optional<dsplib::PreambleDetector::Result> again;
+            try {
+                again = det.process(sig2);
+            } catch (const std::exception& e) {
+                res.fail("C18:exception", std::string("PreambleDetector::process threw: ") + e.what());
+                return res;
+            }
+            if (again.has_value()) {
+                res.fail("C18:spurious-detection-after-preamble",
+                         fmt("nh=%d thr=%.3f: after the preamble (ended at stream index %lld) the call [%lld,%lld) reports another detection at offset %d with score %.4g; the largest "
+                             "reference score outside the preamble is %.4f",
+                             nh, thr, static_cast<long long>(end), static_cast<long long>(pos), static_cast<long long>(pos + len2), again->offset, again->score, side));
+                return res;
+            }
+            ++spurious_checked;
+            pos += len2;
+            continue;
+        }
         const int nf = int(std::min<int64_t>(r.range(1, 4), (N - pos) / block));
         multi |= (nf > 1);
         const int len = nf * block;
@@ -253,6 +295,7 @@ Result exec(const Plan& pl) {
         }
         pos += len;
     }
+    res.inc("probe.frames_after_detection_checked", spurious_checked);
     if (has && !detected) {
         res.fail("C18:missed", fmt("nh=%d: stream ended without a detection (preamble ends at %lld)", nh, static_cast<long long>(end)));
         return res;
